@@ -401,6 +401,25 @@ func Run(sc Scenario, w *World) *Runner {
 		rn.cwg.Add(1)
 		go rn.client(cl)
 	}
+	// sampler: (term, leader, state, term) of every server at seeded instants (C18.3)
+	rn.cwg.Add(1)
+	go func() {
+		defer rn.cwg.Done()
+		rng := rand.New(rand.NewSource(sc.Seed ^ 0x73616d70))
+		period := sc.P.HeartbeatMs / 6
+		if sc.Quiet {
+			period = sc.P.HeartbeatMs * 2
+		}
+		for {
+			select {
+			case <-rn.stopClients:
+				return
+			default:
+			}
+			time.Sleep(time.Duration(1+rng.Intn(period+1)) * time.Millisecond)
+			c.Sample(c.Nodes[rng.Intn(len(c.Nodes))])
+		}
+	}()
 	if f := scripts[sc.Script]; f != nil {
 		f(rn)
 	}
